@@ -85,6 +85,9 @@ POOL = [
     "characters(digits => true).len()", 'int("12") + float("1.5")',
     '$.items.max() - $.items.min()', 'isString($.s) and isList($.items)',
     '$src.take(3).select($ + 1)', '$src.where($ mod 2 = 0).take(2).sum()',
+    # one host object reached through two yaqlized facades
+    '$guest.registry.name', '$admin.registry.secret',
+    '[$admin.registry.name, $guest.registry.name]',
     # remembered iterators read more than once
     'let(m => $src.take(5).memorize()) -> [$m.sum(), $m.len(), $m.toList()]',
     '[1, 2, 3].join($src.take(3).select($ + 0), true, [$1, $2]).len()',
@@ -175,8 +178,38 @@ def _ic(text):
         text[:60], len(text))
 
 
+class _Registry:
+    def __init__(self):
+        self.name = 'reg'
+        self.secret = 's3'
+
+    def __repr__(self):
+        return '<registry>'
+
+
+class _Facade:
+    def __init__(self, registry):
+        self.registry = registry
+
+    def __repr__(self):
+        return '<facade>'
+
+
+def _facades():
+    """one host object that is not yaqlized by the host, handed out by two
+    yaqlized facades with different restrictions of their own"""
+    from yaql import yaqlization
+    reg = _Registry()
+    admin, guest = _Facade(reg), _Facade(reg)
+    yaqlization.yaqlize(admin, auto_yaqlize_result=True)
+    yaqlization.yaqlize(guest, auto_yaqlize_result=True,
+                        yaqlize_methods=False, blacklist=['secret'])
+    return admin, guest
+
+
 def make_parent(lib=None):
     parent = (lib or common.std_context()).create_child_context()
+    parent['$admin'], parent['$guest'] = _facades()
     parent['$fd'] = yutils.FrozenDict({'k': 1, 'j': (1, 2), 'z': 'zz'})
     parent['$tup'] = (1, 2, 3)
     parent['$hostSet'] = frozenset([1, 2])
@@ -844,10 +877,15 @@ def run(run):
     fd = [i for i, t in enumerate(POOL) if '$fd' in t]
     pairs = [((i, 0), ((i * 7 + run.seed) % n, 1)) for i in range(n)]
     pairs += [((i, 0), (j, 0)) for i in fd for j in fd]
+    # the statements that reach one host object through different facades,
+    # in both orders
+    fac = [i for i, t in enumerate(POOL) if '.registry.' in t]
+    fac_pairs = [((i, 0), (j, 0)) for i in fac for j in fac if i != j]
     pairs += [((i, 0), (i, 0)) for i in range(0, n, 3)]
     if not full:
         pairs = pairs[run.seed % 2::2] + [((i, 0), (j, 0))
                                           for i in fd for j in fd]
+    pairs += fac_pairs
     chunks = [pairs[i::16] for i in range(16)]
     run.shards(_sys_shard, [(c, 3000 if full else 400, 3 if full else 2)
                             for c in chunks if c], watchdog=600)
@@ -860,6 +898,7 @@ def run(run):
     mem = [i for i, t in enumerate(POOL) if 'memorize' in t or
            'defaultIfEmpty' in t or '.join($src' in t]
     ov += [((s_, 0), (i, 1)) for i in mem for s_ in (0, 3)]
+
     run.shards(_overlap_shard, [(ov[i::16],) for i in range(16)],
                watchdog=900)
     k = 8
